@@ -1,9 +1,40 @@
 import Lean.Data.Json
-/-! Line-protocol handler for property C12 (model side of the correspondence). -/
+import SpoxModel.Model.Renames
+import SpoxModel.Generated.RenamesIR
+/-! Line-protocol handler for C12: run `with _temporary_renames(**kw): body` on the model (IR
+    generated from /repo) and report every Var's `_name` inside the block and afterwards. -/
 namespace Drv.C12
-open Lean
+open Lean Renames
 
-/-- One request (a JSON value) in, one response (a JSON value) out. -/
-def handle (_req : Json) : Json := Json.mkObj [("error", "unimplemented")]
+def storeOf (init : List (Nat × String)) : Store :=
+  fun v => (init.find? (fun e => e.1 == v)).map (·.2)
+
+def names (n : Nat) (s : Store) : Json :=
+  Json.arr ((List.range n).map (fun v => match s v with | some x => Json.str x | none => Json.null)).toArray
+
+def pair (j : Json) : Except String (String × Nat) :=
+  match j with
+  | .arr #[k, v] => do return ((← fromJson? k), (← fromJson? v))
+  | _ => throw "bad kw entry"
+
+def spair (j : Json) : Except String (Nat × String) :=
+  match j with
+  | .arr #[k, v] => do return ((← fromJson? k), (← fromJson? v))
+  | _ => throw "bad store entry"
+
+def handle (req : Json) : Json :=
+  match (do
+    let n ← req.getObjValAs? Nat "n"
+    let kw ← (← req.getObjValAs? (List Json) "kw").mapM pair
+    let st ← (← req.getObjValAs? (List Json) "store").mapM spair
+    let raises ← req.getObjValAs? Bool "raises"
+    let (s1, o, inside) := run Generated.RenamesIR.ir kw
+      (fun s => (s, (if raises then Outcome.exn else Outcome.ok), s)) (storeOf st)
+    return Json.mkObj [
+      ("inside", match inside with | some s => names n s | none => Json.null),
+      ("after", names n s1),
+      ("raised", Json.bool (o == Outcome.exn))]) with
+  | .ok j => j
+  | .error e => Json.mkObj [("error", e)]
 
 end Drv.C12
